@@ -448,7 +448,7 @@ def run_subset(tier, seed, sc, rep, pid="C01"):
     call returned.  Random programs (handlers that unregister watches / the instance, deleted files) judged by
     MonInotify; only the rules about released objects count here."""
     exe = build("plain")
-    scripts = random_scripts(seed + 4711, 1200 if tier == "quick" else 15000)
+    scripts = random_scripts(seed + 4711, 1200 if tier == "quick" else 5000)
     idx = {script_id(x): x for x in scripts}
     tfs = run_scripts(exe, scripts, sc, "c01ino")
     verdicts, nev = validate(tfs, sc)
@@ -492,7 +492,7 @@ def run(pid, tier, seed, replay=None):
             bfs_in, bfs_out, sim, complete = gen_from_spec(tier, seed, sc)
             scripts = scripts_from_spec(bfs_in, bfs_out, sim)
             ngen = len(scripts)
-            scripts += random_scripts(seed, 4000 if tier == "quick" else 30000)
+            scripts += random_scripts(seed, 4000 if tier == "quick" else 15000)
             exhaustive = complete
         idx = {script_id(s): s for s in scripts}
         if len(idx) != len(scripts):
